@@ -32,6 +32,8 @@ def style_probes(sc):
                 out.add("probe.style.transitions_composed_with_or")
             if t.get("devent"):
                 out.add("probe.style.decorator_declared_event")
+            if t.get("msrc"):
+                out.add("probe.style.from_several_sources")
             if t.get("decl") == "from":
                 out.add("probe.style.from_")
             if t.get("decl") == "itself":
